@@ -12,8 +12,18 @@
       in-flight tracking the received sequence is the emitted one (theorem C16_emitter_fifo),
       without it every schedule still conserves events ([erun_conserves] below), so any
       permutation is accepted as "what the model allows". *)
-From Orbit Require Export Corr.Common Model.Emitter Model.Current.
+From Orbit Require Export Corr.Common Model.Emitter Model.StoreConc Model.Current.
 From Coq Require Import Permutation.
+
+(** Observations of the write || merge cases ([CConc]): the listing of the store's log (entry
+    numbers) and the content of its view (key, number of the entry whose value is shown),
+    keys ascending. *)
+Definition cobs := (list nat * list (nat * nat))%type.
+(** an event as seen by the subscriber: write / replicated, its entries, and what the
+    subscriber's own queries returned when it received the event *)
+Inductive cev := CEv (w : bool) (es : list nat) (o : cobs).
+(** one forced step: the thread, the observation after the step, the events received *)
+Inductive cstep := CStep (l : nat) (o : cobs) (evs : list cev).
 
 (** [events/events.go handleSubscriber]: G1 treats the event G2 holds as still queued (true);
     false = the pinned commit.  Defined here until the repair is merged; it then moves to
@@ -38,7 +48,22 @@ Inductive case :=
 (* one replication step: entries that are new in the log afterwards, the replicated events
    received during the step (entries, each with visibility as above), and the number of
    batches the replicator handed to the store *)
-| CSync (fresh : list N) (announced : list (list (N * bool))) (load_ends : nat).
+| CSync (fresh : list N) (announced : list (list (N * bool))) (load_ends : nat)
+(* one store, several writer goroutines running freely (they queue up on the write lock): the
+   entries their calls returned (any order) and the write events a subscriber that keeps up
+   received (entry, visible when queried from inside the subscriber) *)
+| CWritesFree (returned : list N) (events : list (N * bool))
+(* one store, [nw] local writers (writer [i] writes entry [i]) running concurrently with the
+   merge of the remote [batches]; [ents] gives every entry's keys and whether it deletes them,
+   [nk] is the number of keys, [order] the final listing (last writer wins: later = wins),
+   [returned] the writers whose call returned their entry.  The driver forced the schedule
+   [map label steps] (every step was enabled for it) and observed the store after every
+   step, from inside the subscriber at every event, and at rest.  [probed]: the driver found
+   (once, at the start) that an index rebuild in progress keeps another thread from starting
+   its own.  [exact = false]: the driver lost control of the schedule (watchdog); only the
+   specification is evaluated then. *)
+| CConc (nw : nat) (batches : list (list nat)) (ents : list (nat * (list nat * bool))) (nk : nat)
+        (order returned : list nat) (steps : list cstep) (rest : cobs) (probed exact : bool).
 
 (** * Emitter *)
 
@@ -117,6 +142,135 @@ Fixpoint rl_run (view : list N) (batches : list (list N)) : list (list (N * bool
   | b :: r => let '(v, ev) := rl_batch view b in ev :: rl_run v r
   end.
 
+(** * Local writes concurrent with the merge ([Model/StoreConc.v]) *)
+
+Fixpoint all2 {A B} (f : A -> B -> bool) (la : list A) (lb : list B) : bool :=
+  match la, lb with
+  | [], [] => true
+  | a :: la', b :: lb' => f a b && all2 f la' lb'
+  | _, _ => false
+  end.
+
+Definition nn_eqb (a b : nat * nat) : bool := Nat.eqb (fst a) (fst b) && Nat.eqb (snd a) (snd b).
+
+Fixpoint nodupb_nat (l : list nat) : bool :=
+  match l with [] => true | x :: r => negb (memn x r) && nodupb_nat r end.
+
+Section Conc.
+  Variable ents : list (nat * (list nat * bool)).
+  Variable order : list nat.
+  Variable nk : nat.
+
+  Fixpoint cindex_of (x : nat) (l : list nat) : nat :=
+    match l with [] => O | y :: r => if Nat.eqb x y then O else S (cindex_of x r) end.
+  (** position in the last-writer-wins order *)
+  Definition crank (e : nat) : nat := cindex_of e order.
+  Definition ckeys (e : nat) : list nat :=
+    match alookup Nat.eqb e ents with Some (ks, _) => ks | None => [] end.
+  Definition cdel (e : nat) : bool :=
+    match alookup Nat.eqb e ents with Some (_, d) => d | None => false end.
+
+  (** the entry of [V] that decides key [k] *)
+  Definition cwinner (V : list nat) (k : nat) : option nat :=
+    fold_left (fun best x =>
+                 if memn k (ckeys x) then
+                   match best with
+                   | None => Some x
+                   | Some b => if Nat.leb (crank b) (crank x) then Some x else Some b
+                   end
+                 else best) V None.
+
+  (** replay of the set of entries [V]: what a view reflecting exactly [V] shows *)
+  Definition ccontent (V : list nat) : list (nat * nat) :=
+    flat_map (fun k => match cwinner V k with
+                       | Some m => if cdel m then [] else [(k, m)]
+                       | None => []
+                       end) (seq 0 nk).
+
+  (** specification side: do the answers [o] of the store reflect entry [e]?  It is in the
+      log and each of its keys shows its value or the value of an entry that wins over it
+      (or nothing, when a deletion that wins over it is in the log). *)
+  Definition cvisible (o : cobs) (e : nat) : bool :=
+    memn e (fst o) &&
+    forallb (fun k =>
+               match alookup Nat.eqb k (snd o) with
+               | Some m => Nat.leb (crank e) (crank m) && memn k (ckeys m) && negb (cdel m)
+               | None => existsb (fun d => cdel d && memn k (ckeys d) && Nat.leb (crank e) (crank d)) (fst o)
+               end) (ckeys e).
+
+  (** correspondence side: the observation is what the model state shows *)
+  Definition obs_ok (s : sst) (o : cobs) : bool :=
+    seteqb (fst o) (s_log s) && list_eqb nn_eqb (snd o) (ccontent (s_view s)).
+
+  Definition ev_ok (s : sst) (m : scevent) (c : cev) : bool :=
+    match m, c with
+    | SEvWrite e, CEv true es o => list_eqb Nat.eqb es [e] && obs_ok s o
+    | SEvReplicated b, CEv false es o => seteqb es b && obs_ok s o
+    | _, _ => false
+    end.
+
+  (** replay of the forced schedule: every step is enabled, and after it the model shows the
+      observed log and view and has emitted exactly the events the subscriber received (which
+      saw the same state); in the end every thread is done and the state at rest is the last one *)
+  Fixpoint conc_agree (ser : bool) (s : sst) (steps : list cstep) (rest : cobs) : bool :=
+    match steps with
+    | [] => sall_doneb s && obs_ok s rest
+    | CStep l o evs :: r =>
+      match sstep ser s l with
+      | None => false
+      | Some s' =>
+        obs_ok s' o
+        && all2 (ev_ok s') (skipn (length (s_events s)) (s_events s')) evs
+        && conc_agree ser s' r rest
+      end
+    end.
+
+  (** the entry is reflected by every observation from here on, including the one at rest *)
+  Fixpoint conc_visible_from (steps : list cstep) (rest : cobs) (e : nat) : bool :=
+    match steps with
+    | [] => cvisible rest e
+    | CStep _ o _ :: r => cvisible o e && conc_visible_from r rest e
+    end.
+
+  (** never ahead of the state: the entries of a received event are reflected by the
+      subscriber's own queries at reception and by every later observation *)
+  Fixpoint conc_never_ahead (steps : list cstep) (rest : cobs) : bool :=
+    match steps with
+    | [] => true
+    | CStep _ o evs :: r =>
+      forallb (fun c => match c with
+                        | CEv _ es oe =>
+                          forallb (fun e => cvisible oe e && cvisible o e && conc_visible_from r rest e) es
+                        end) evs
+      && conc_never_ahead r rest
+    end.
+
+  Definition all_evs (steps : list cstep) : list cev :=
+    flat_map (fun st => match st with CStep _ _ evs => evs end) steps.
+  Definition wev_ids (evs : list cev) : list nat :=
+    flat_map (fun c => match c with CEv true es _ => es | CEv false _ _ => [] end) evs.
+  Definition rev_sets (evs : list cev) : list (list nat) :=
+    flat_map (fun c => match c with CEv false es _ => [es] | CEv true _ _ => [] end) evs.
+
+  (** one write event per returned writer carrying its entry and nothing else; one replicated
+      event per merged batch, carrying that batch, in the order of the merges *)
+  Definition conc_exactly_once (batches : list (list nat)) (returned : list nat) (steps : list cstep) : bool :=
+    let evs := all_evs steps in
+    forallb (fun c => match c with CEv true es _ => Nat.eqb (length es) 1 | CEv false _ _ => true end) evs
+    && nodupb_nat (wev_ids evs) && seteqb (wev_ids evs) returned
+    && all2 seteqb (rev_sets evs) batches.
+
+  (** at rest the log holds the acknowledged writes and the batches, and the view is the
+      replay of the log (C06 / C07) *)
+  Definition conc_rest_ok (batches : list (list nat)) (returned : list nat) (rest : cobs) : bool :=
+    seteqb (fst rest) (returned ++ concat batches)
+    && list_eqb nn_eqb (snd rest) (ccontent (fst rest)).
+
+  Definition conc_holds (batches : list (list nat)) (returned : list nat) (steps : list cstep) (rest : cobs) : bool :=
+    conc_never_ahead steps rest && conc_exactly_once batches returned steps
+    && conc_rest_ok batches returned rest.
+End Conc.
+
 Definition nb_eqb (a b : N * bool) : bool := (fst a =? fst b)%N && Bool.eqb (snd a) (snd b).
 Definition successes (attempts : list (option N)) : list N :=
   flat_map (fun a => match a with Some e => [e] | None => [] end) attempts.
@@ -132,11 +286,25 @@ Definition check (c : case) : bool * bool :=
   | CWrites attempts events =>
     (list_eqb nb_eqb events (aw_run attempts),
      listN_eqb (map fst events) (successes attempts) && forallb snd events)
+  | CWritesFree returned events =>
+    (* every schedule of Model/StoreConc.v gives exactly one write event per returned entry,
+       each in the view from its emission on (S_storeconc_never_ahead / _exactly_once): the
+       model's prediction and the specification coincide *)
+    let ok := nodupb (map fst events)
+              && forallb (fun h => memN h (map fst events)) returned
+              && forallb (fun h => memN h returned) (map fst events)
+              && forallb snd events in
+    (ok, ok)
   | CSync fresh announced load_ends =>
     (list_eqb (list_eqb nb_eqb) announced (rl_run [] (map (map fst) announced)),
      forallb (fun h => existsb (fun b => memN h (map fst b)) announced) fresh
      && forallb (forallb snd) announced
      && (length announced =? load_ends)%nat)
+  | CConc nw batches ents nk order returned steps rest probed exact =>
+    (Bool.eqb probed c16_index_serialised_current
+     && (negb exact
+         || conc_agree ents order nk c16_index_serialised_current (sinit nw batches) steps rest),
+     conc_holds ents order nk batches returned steps rest)
   end.
 
 Definition failures (base : nat) (cs : list case) := failures_from check base cs.
@@ -214,3 +382,49 @@ Example forced_smallest_repaired :
   let em := map N.of_nat (seq 1 18) in
   check_forced true 1 1 1 em 15 (map N.of_nat (seq 1 18)) = true.
 Proof. vm_compute. reflexivity. Qed.
+
+(** * Write || merge: the forced schedule "writer parked between reading the log and applying
+    it, merge run to completion, writer released" as observed on the real key-value store
+    (writer = entry 0 puts key 0; batch [1;2] puts keys 0 and 1; batch [3] puts key 0 and wins
+    over 0 and 1).  On the tree without the mutex the unserialised model predicts every
+    observation, the serialised one does not, and the specification rejects the run: after the
+    stale rebuild key 0 shows entry 0 although replicated [3] has been announced and the
+    replay of the log shows 3.  On the repaired tree the merge waits for the writer. *)
+Definition conc_ex_ents : list (nat * (list nat * bool)) :=
+  [(0, ([0], false)); (1, ([0], false)); (2, ([1], false)); (3, ([0], false))]%nat.
+Definition conc_ex_init : list cstep :=
+  [CStep 1 ([1; 2], []) []; CStep 1 ([1; 2], []) []; CStep 1 ([1; 2], [(0, 1); (1, 2)]) [];
+   CStep 1 ([1; 2], [(0, 1); (1, 2)]) [];
+   CStep 1 ([1; 2], [(0, 1); (1, 2)]) [CEv false [2; 1] ([1; 2], [(0, 1); (1, 2)])];
+   CStep 0 ([1; 2; 0], [(0, 1); (1, 2)]) []; CStep 0 ([1; 2; 0], [(0, 1); (1, 2)]) [];
+   CStep 0 ([1; 2; 0], [(0, 1); (1, 2)]) []]%nat.
+Definition conc_ex_unfixed : list cstep :=
+  (conc_ex_init ++
+   [CStep 1 ([1; 2; 0; 3], [(0, 1); (1, 2)]) []; CStep 1 ([1; 2; 0; 3], [(0, 1); (1, 2)]) [];
+    CStep 1 ([1; 2; 0; 3], [(0, 3); (1, 2)]) []; CStep 1 ([1; 2; 0; 3], [(0, 3); (1, 2)]) [];
+    CStep 1 ([1; 2; 0; 3], [(0, 3); (1, 2)]) [CEv false [3] ([1; 2; 0; 3], [(0, 3); (1, 2)])];
+    CStep 0 ([1; 2; 0; 3], [(0, 0); (1, 2)]) []; CStep 0 ([1; 2; 0; 3], [(0, 0); (1, 2)]) [];
+    CStep 0 ([1; 2; 0; 3], [(0, 0); (1, 2)]) [CEv true [0] ([1; 2; 0; 3], [(0, 0); (1, 2)])]])%nat.
+Definition conc_ex_fixed : list cstep :=
+  (conc_ex_init ++
+   [CStep 1 ([1; 2; 0; 3], [(0, 1); (1, 2)]) [];
+    CStep 0 ([1; 2; 0; 3], [(0, 0); (1, 2)]) []; CStep 0 ([1; 2; 0; 3], [(0, 0); (1, 2)]) [];
+    CStep 0 ([1; 2; 0; 3], [(0, 0); (1, 2)]) [CEv true [0] ([1; 2; 0; 3], [(0, 0); (1, 2)])];
+    CStep 1 ([1; 2; 0; 3], [(0, 0); (1, 2)]) []; CStep 1 ([1; 2; 0; 3], [(0, 3); (1, 2)]) [];
+    CStep 1 ([1; 2; 0; 3], [(0, 3); (1, 2)]) [];
+    CStep 1 ([1; 2; 0; 3], [(0, 3); (1, 2)]) [CEv false [3] ([1; 2; 0; 3], [(0, 3); (1, 2)])]])%nat.
+
+Example conc_observed_before_repair :
+  let o := ([1; 2; 0; 3], [(0, 0); (1, 2)])%nat in
+  let ag ser := conc_agree conc_ex_ents [1; 2; 0; 3]%nat 2 ser (sinit 1 [[1; 2]; [3]]%nat) conc_ex_unfixed o in
+  ag false = true /\ ag true = false
+  /\ conc_holds conc_ex_ents [1; 2; 0; 3]%nat 2 [[1; 2]; [3]]%nat [0%nat] conc_ex_unfixed o = false
+  /\ conc_never_ahead conc_ex_ents [1; 2; 0; 3]%nat conc_ex_unfixed o = false
+  /\ conc_rest_ok conc_ex_ents [1; 2; 0; 3]%nat 2 [[1; 2]; [3]]%nat [0%nat] o = false.
+Proof. vm_compute. repeat split; reflexivity. Qed.
+
+Example conc_observed_after_repair :
+  let o := ([1; 2; 0; 3], [(0, 3); (1, 2)])%nat in
+  conc_agree conc_ex_ents [1; 2; 0; 3]%nat 2 true (sinit 1 [[1; 2]; [3]]%nat) conc_ex_fixed o = true
+  /\ conc_holds conc_ex_ents [1; 2; 0; 3]%nat 2 [[1; 2]; [3]]%nat [0%nat] conc_ex_fixed o = true.
+Proof. vm_compute. split; reflexivity. Qed.
